@@ -21,21 +21,25 @@
   is of a round in (r, r'], and the proof is by induction on time. That is the form the node model
   discharges: the justification is in the node's own vote sets when it signs (C04 L8, L9).
 
-  LAYER 2 (PARTIAL): that every history produced by the node model under any schedule, including
-  crash/restart (C07), satisfies A1–A3. Mechanised for runs of ONE node from a fresh state, over
-  the ghost list `signed` of everything it signs (Props/C04 L6, L8-L11; runs of `stepIn` whose
-  timeouts are scheduled ones): A2 - every precommit for a block names the block with +2/3
-  prevotes in that round, in the node's own vote sets from the moment it signs; A3 (timed form) -
-  a precommit for b followed later by a prevote for something else in a later round comes with
-  +2/3 prevotes for something other than b in a round in between (inclusive of the prevote's
-  round); A1 - no two votes of the history share height, round and type (L11; across restarts it
-  is the guarantee of the signer the node signs through, C03); votes are signed for the current
-  height and round, which never go back. NOT mechanised: runs with crash/WAL replay (the ghost
-  history does not survive `Wal.restart`; C07),
-  and the composition of several node models with a network into one `THistory` (that a vote set's
-  +2/3 means +2/3 of the validators signed: C15 `majority_sound`). That composition is what the c01
-  "net" engine checks on the real
-  nodes on every run: several real ConsensusStates
+  LAYER 2 (proved for crash-free runs, Lemmas/NetAgreement.lean): AGREEMENT FOR A NETWORK OF NODE
+  MODELS. The system is any number of honest nodes, each the complete round-state-machine model of
+  C04 (`Node`, tied step by step to the real ConsensusState), under an adversarial scheduler: every
+  global step hands one node one input - ANY message from any peer (proposals, parts, votes with
+  any content and any signature bit: this is where Byzantine validators live), an own queued
+  message, a timeout, a peer's majority claim - in any order, with any duplication, delay or loss.
+  The one constraint on inputs is UNFORGEABILITY (`Auth`): a vote that verifies under the key of an
+  honest validator has been signed by that validator's node. `agreement_network` then says: with
+  less than a third of the power outside the honest nodes, two nodes never emit commits for
+  different blocks at one height - over every schedule, every height, any validator count and
+  power distribution. The proof discharges A1-A3 of the timed agreement theorem (with global step
+  numbers as time) from the run invariants of ONE node (C04 L8, L10, L11; their frozen forms for
+  heights the node has left, `Lemmas/NodePast.lean`; C15's vote-set invariant for every vote set a
+  node holds, so that a reported +2/3 consists of offered, validly signed votes; commits are
+  emitted with +2/3 precommits of one round in the vote sets frozen at that moment).
+  NOT covered by the theorem: crash/restart of honest nodes (the ghost history does not survive
+  `Wal.restart`; across restarts A1 is the signer's guarantee, C03, and what replay restores is
+  C07 - both decided per run), chain linearity across heights (C02), and the tie of the model to
+  the code, which is what the c01 "net" engine checks on every run: several real ConsensusStates
   under a seeded adversarial scheduler (reordering, duplication, loss with retransmission,
   arbitrary timeouts, Byzantine validators below 1/3 that equivocate, crash + WAL restart), each
   honest node compared step by step with its Lean model, with Go-side oracles for agreement and
@@ -43,6 +47,7 @@
 -/
 import AnnVerif.Lemmas.Agreement
 import AnnVerif.Lemmas.AgreementT
+import AnnVerif.Lemmas.NetExample
 namespace AnnVerif.C01
 open AnnVerif.Agreement AnnVerif.Fairness
 
@@ -125,4 +130,41 @@ example : AgreementT.HonestRules 4 (fun _ => 1) (fun j => j = 3) exT := by
 
 example : AgreementT.CommitQuorum 4 (fun _ => 1) exT 0 7 := by
   simp [AgreementT.CommitQuorum, pow, S, exT]
+
+/-! ### LAYER 2: the network of node models -/
+
+/-- C01 (layer 2): in every valid run of a system of honest node models - any schedule, any
+    messages from anybody, unforgeable signatures, validators outside the honest nodes holding less
+    than a third of the power - no two nodes ever commit different blocks at one height. -/
+theorem agreement_network {K : Nat} {V : List VoteSet.Validator} {me0 : Nat → Option Nat} {g0 : Net.G}
+    {as : List Net.Act} (setting : Net.Setting K V me0 g0 as)
+    (byz : 3 * pow V.length (Net.wOf V) (fun j => ¬ Net.Honest K me0 j) < S V.length (Net.wOf V))
+    (height : Int) (s s' k k' : Nat) (hk : k < K) (hk' : k' < K) (b b' : Bytes) (hb : b ≠ []) (hb' : b' ≠ [])
+    (hc : Node.Emit.commit height b ∈ ((Net.stateAt g0 as s).node k).out)
+    (hc' : Node.Emit.commit height b' ∈ ((Net.stateAt g0 as s').node k').out) : b = b' :=
+  Net.agreement_net setting byz s s' k k' hk hk' b b' hb hb' hc hc'
+
+/-- the vote history of every height of every such run obeys the honest rules: A1 (one precommit
+    per round), A2 (a precommit for a block comes with a polka), A3 (after precommitting b a
+    prevote for something else in a later round is cast only when a polka for something else, of
+    a round in between, is already complete) -/
+theorem network_votes_obey_the_rules {K : Nat} {V : List VoteSet.Validator} {me0 : Nat → Option Nat} {g0 : Net.G}
+    {as : List Net.Act} (setting : Net.Setting K V me0 g0 as) (height : Int) :
+    Net.HonestRules V.length (Net.wOf V) (fun j => ¬ Net.Honest K me0 j) (Net.Hs K me0 g0 as height) :=
+  Net.honest_rules setting
+
+/-- freshly started nodes are a legitimate initial state -/
+theorem started_nodes_satisfy_the_setting (V : List VoteSet.Validator) (pos : ∀ val ∈ V, 0 ≤ val.power)
+    (cfg : Node.Cfg) (height : Int) (vals : ValSet.ValSet) (hV : Node.vsVals vals = V) (i : Nat) (skip : Bool)
+    (tab : List (Node.Name × Int × Bool)) :
+    Node.Full V (some i) (Node.start cfg height vals (some i) skip tab) [] :=
+  Net.start_full V pos cfg height vals hV i skip tab
+
+/-- non-vacuity: four equal validators, three honest nodes, a 33-step schedule with proposal, parts,
+    prevotes and precommits exchanged between the nodes: the setting holds (the run is valid, every
+    delivered vote was signed by its node) and all three nodes commit "b" at height 1 -/
+example : Net.Setting 3 Net.V4 (fun k => some k) Net.g4 Net.sched4 ∧
+    ∀ k, k < 3 → Node.Emit.commit 1 [0x62] ∈ ((Net.stateAt Net.g4 Net.sched4 Net.sched4.length).node k).out :=
+  ⟨Net.setting4, by decide⟩
+
 end AnnVerif.C01
